@@ -140,11 +140,20 @@ def monitor_case(c):
                     if new[:len(old)] != old or len(new) != len(old) + 1 or not old:
                         fail("accepted status edit did not append exactly one status to the run's file", **{"class": "mark-not-append"})
                     else:
+                        o, n = None, None
+                        for ln in reversed(old):        # the previous last status = the last line that IS a status
+                            try:
+                                o = json.loads(ln)
+                                break
+                            except ValueError:
+                                continue
                         try:
-                            o, n = json.loads(old[-1]), json.loads(new[-1])
+                            n = json.loads(new[-1])
                         except ValueError:
-                            o, n = None, None
-                        if o is None or o.get("RequestId") != b.get("requestId"):
+                            n = None
+                        if n is None:
+                            fail("the status appended by the edit is not a parseable line (glued to a torn tail?)", **{"class": "mark-not-append"})
+                        elif o is None or o.get("RequestId") != b.get("requestId"):
                             fail("status edit landed in the file of another run (%r)" % (o or {}).get("RequestId"), **{"class": "mark-wrong-run"})
                         else:
                             idx = [j for j, nd in enumerate(o.get("Nodes") or []) if nd["Step"]["Name"] == b.get("step")]
@@ -162,6 +171,45 @@ def monitor_case(c):
                                      **{"class": "mark-wrong-value"})
                             elif o.get("Status") == 1 and gone and (n.get("Status") != 2 or n.get("StatusText") != "failed"):
                                 fail("a run recorded as running whose process is gone was not relabelled failed by the edit", **{"class": "mark-relabel"})
+                # ... and the edit must be what every reader of the history sees afterwards
+                qb, qa = s.get("q_before"), s.get("q_after")
+                if qb is not None and qa is not None:
+                    rq, stp = b.get("requestId"), b.get("step")
+
+                    def edited(ln):
+                        e = json.loads(json.dumps(ln))
+                        idx = [j for j, nd in enumerate(e["nodes"]) if nd["n"] == stp]
+                        if idx:
+                            e["nodes"][idx[-1]]["s"] = to
+                        return e
+                    gone_q = live.get(s["name"], (None, 0))[0] != rq
+
+                    def differs(got, want):
+                        """not equal, up to the permitted relabel running -> failed of a run whose process is gone"""
+                        if got is None or want is None:
+                            return got is not want
+                        if isinstance(got, list):
+                            return len(got) != len(want) or any(differs(g, w) for g, w in zip(got, want))
+                        if got["r"] != want["r"] or got["nodes"] != want["nodes"]:
+                            return True
+                        return got["s"] != want["s"] and not (want["s"] == 1 and got["s"] == 2 and (want["r"] != rq or gone_q))
+                    problems = []
+                    if qb["byreq"] is None or qa["byreq"] is None:
+                        problems.append("GetStatusByRequestID does not answer for the edited run")
+                    elif differs(qa["byreq"], edited(qb["byreq"])):
+                        problems.append("GetStatusByRequestID shows %s, expected %s" % (qa["byreq"], edited(qb["byreq"])))
+                    want_recent = [edited(x) if x["r"] == rq else x for x in qb["recent"]]
+                    if differs(qa["recent"], want_recent):
+                        problems.append("recent history shows %s, expected %s" % (qa["recent"], want_recent))
+                    if qb["latest"] is not None and qb["latest"]["r"] == rq:
+                        if differs(qa["latest"], edited(qb["latest"])):
+                            problems.append("latest status shows %s, expected %s" % (qa["latest"], edited(qb["latest"])))
+                    elif differs(qa["latest"], qb["latest"]):
+                        problems.append("latest status of the DAG changed although another run was edited")
+                    if problems:
+                        fail("accepted status edit (200) is not what the history queries show afterwards: " + "; ".join(problems)[:600],
+                             **{"class": "mark-not-visible"})
+                if len(df) == 1:
                     name_dir = None
                     for h in cur["hist"]:
                         if h["dir"] == df[0]["dir"]:
@@ -202,6 +250,10 @@ def c_step(s, real):
         return "SPost %s %s" % (cstring(s["name"]), c_body(s["body"]))
     if k == "create":
         return "SCreate %s %s" % (c_opt(s["body"].get("action")), c_opt(s["body"].get("value", "")))
+    if k == "surgery":
+        mode = {"torn-prefix": 0, "torn-nonl": 1, "twin": 2}[s["mode"]]
+        return "SSurgery %s (%d)%%Z %d %s" % (cstring(L.map_path(s["loc"], real)), s["stamp"], mode,
+                                              clist([L.c_status(l) for l in s.get("lines") or []]))
     if k == "delete":
         return "SDelete %s" % cstring(s["name"])
     if k == "details":
@@ -209,10 +261,23 @@ def c_step(s, real):
     raise ValueError(k)
 
 
+def reader_view(h):
+    """The runs of a history directory the way every reader of the history sees them (the Api model is at that level;
+    the file level is C07's): an original X.dat is dropped when its compacted copy X_c.dat exists, and a line that is
+    not a status (a torn tail) is no status."""
+    files = {r["file"] for r in h["runs"]}
+    out = []
+    for r in h["runs"]:
+        if not r["file"].endswith("_c.dat") and r["file"][:-4] + "_c.dat" in files:
+            continue
+        out.append((r["stamp"], [l for l in r["lines"] if l["r"] != "?garbage"]))
+    return out
+
+
 def c_obs(s, real):
     d = s["dump"]
     defs = clist(["(%s, %s)" % (cstring(L.MDIR + "/" + f), cstring(t)) for f, t in d["defs"]])
-    hist = clist(["(%s, %s)" % (cstring(L.map_path(h["loc"], real)), clist([L.c_run(r["stamp"], r["lines"]) for r in h["runs"]]))
+    hist = clist(["(%s, %s)" % (cstring(L.map_path(h["loc"], real)), clist([L.c_run(st, ls) for st, ls in reader_view(h)]))
                   for h in d["hist"]])
     spawns = clist([clist([cstring(L.map_path(a, real)) for a in argv]) for argv in s["spawns"]])
     stops = clist([cstring(L.map_path(x, real)) for x in s["stops"]])
@@ -269,7 +334,7 @@ def run_tool_cases(ctx, tool, args, seed=None):
     return rows[0], rows[1:], out
 
 
-OBSERVED = ("dump", "code", "spawns", "stops", "diff", "note", "loc", "argv", "saw", "saw_env", "want", "want_env", "exec_note")
+OBSERVED = ("dump", "code", "spawns", "stops", "diff", "note", "loc", "q_before", "q_after", "argv", "saw", "saw_env", "want", "want_env", "exec_note")
 
 
 def strip(c, upto=None):
@@ -363,7 +428,7 @@ def run(ctx, replay_cases=None):
                 a = (s.get("body") or {}).get("action") if s["kind"] == "post" else s["kind"]
                 actions[str(a)] = actions.get(str(a), 0) + 1
                 codes[str(s["code"])] = codes.get(str(s["code"]), 0) + 1
-        if c["stream"] == "table":
+        if c["stream"] in ("table", "table-shapes"):
             last = c["steps"][-1]
             table.setdefault(c["row"], {})[c["state"]] = last["code"]
         if any(s["kind"] == "post" and s["code"] == 200 for s in c["steps"][4:]):
